@@ -389,14 +389,29 @@ namespace igris
         return igris_u64toa((uint64_t)num, buf, base);
     }
 
+    /* Value of `c` as a digit of a base up to 36: '0'-'9', then the letters of
+       either case for 10..35; 0xFF (not below any base) for every other
+       character, the terminating NUL included. */
+    static inline uint8_t digit_value(char c)
+    {
+        if (c >= '0' && c <= '9')
+            return (uint8_t)(c - '0');
+        if (c >= 'a' && c <= 'z')
+            return (uint8_t)(c - 'a' + 10);
+        if (c >= 'A' && c <= 'Z')
+            return (uint8_t)(c - 'A' + 10);
+        return 0xFF;
+    }
+
     static inline uint32_t
     igris_atou32(const char *buf, uint8_t base, char **end)
     {
         uint32_t res = 0;
+        uint8_t d;
 
-        for (char c = *buf; ((c = *buf)) && igris_isxdigit(c); buf++)
+        for (; (d = digit_value(*buf)) < base; buf++)
         {
-            res = res * base + hex2half(c);
+            res = res * base + d;
         }
 
         if (end)
@@ -409,10 +424,11 @@ namespace igris
     igris_atou64(const char *buf, uint8_t base, char **end)
     {
         uint64_t res = 0;
+        uint8_t d;
 
-        for (char c = *buf; ((c = *buf)) && igris_isxdigit(c); buf++)
+        for (; (d = digit_value(*buf)) < base; buf++)
         {
-            res = res * base + hex2half(c);
+            res = res * base + d;
         }
 
         if (end)
